@@ -368,18 +368,21 @@ func (c *Compiler) writeRootNode(node *node) (err error) {
 if src == nil { return }
 var x *` + pname + `
 _ = x
-if p, ok := src.(**` + pname + `); ok { x = *p } else if p, ok := src.(*` + pname + `); ok { x = p } else if v, ok := src.(` + pname + `); ok { x = &v } else { return }`
+if p, ok := src.(**` + pname + `); ok { if p != nil { x = *p } } else if p, ok := src.(*` + pname + `); ok { x = p } else if v, ok := src.(` + pname + `); ok { x = &v } else { return }
+if x == nil { return }`
 	// Custom header for Set() method.
 	funcHeaderSet := `if len(path) == 0 { return nil }
 if dst == nil { return nil }
 var x *` + pname + `
 _ = x
-if p, ok := dst.(**` + pname + `); ok { x = *p } else if p, ok := dst.(*` + pname + `); ok { x = p } else if v, ok := dst.(` + pname + `); ok { x = &v } else { return nil }`
+if p, ok := dst.(**` + pname + `); ok { if p != nil { x = *p } } else if p, ok := dst.(*` + pname + `); ok { x = p } else if v, ok := dst.(` + pname + `); ok { x = &v } else { return nil }
+if x == nil { return nil }`
 	// Custom header for GetTo() method.
 	funcHeaderGetTo := `if src == nil { return }
 var x *` + pname + `
 _ = x
-if p, ok := src.(**` + pname + `); ok { x = *p } else if p, ok := src.(*` + pname + `); ok { x = p } else if v, ok := src.(` + pname + `); ok { x = &v } else { return }
+if p, ok := src.(**` + pname + `); ok { if p != nil { x = *p } } else if p, ok := src.(*` + pname + `); ok { x = p } else if v, ok := src.(` + pname + `); ok { x = &v } else { return }
+if x == nil { return }
 if len(path) == 0 { *buf = &(*x)
 return}`
 	// Header for Loop() method.
@@ -390,15 +393,18 @@ return}`
 	funcHeaderLoop += `if src == nil { return }
 var x *` + pname + `
 _ = x
-if p, ok := src.(**` + pname + `); ok { x = *p } else if p, ok := src.(*` + pname + `); ok { x = p } else if v, ok := src.(` + pname + `); ok { x = &v } else { return }`
+if p, ok := src.(**` + pname + `); ok { if p != nil { x = *p } } else if p, ok := src.(*` + pname + `); ok { x = p } else if v, ok := src.(` + pname + `); ok { x = &v } else { return }
+if x == nil { return }`
 	// Header for DeepEqual() method.
 	funcHeaderEqual := `var (
 lx, rx *` + pname + `
 leq, req bool
 )
 _, _, _, _ = lx, rx, leq, req
-if lp, ok := l.(**` + pname + `); ok { lx, leq = *lp, true } else if lp, ok := l.(*` + pname + `); ok { lx, leq = lp, true } else if lp, ok := l.(` + pname + `); ok { lx, leq = &lp, true }
-if rp, ok := r.(**` + pname + `); ok { rx, req = *rp, true } else if rp, ok := r.(*` + pname + `); ok { rx, req = rp, true } else if rp, ok := r.(` + pname + `); ok { rx, req = &rp, true }
+if lp, ok := l.(**` + pname + `); ok { if lp == nil { return false }
+lx, leq = *lp, true } else if lp, ok := l.(*` + pname + `); ok { lx, leq = lp, true } else if lp, ok := l.(` + pname + `); ok { lx, leq = &lp, true }
+if rp, ok := r.(**` + pname + `); ok { if rp == nil { return false }
+rx, req = *rp, true } else if rp, ok := r.(*` + pname + `); ok { rx, req = rp, true } else if rp, ok := r.(` + pname + `); ok { rx, req = &rp, true }
 if !leq || !req { return false }
 if lx == nil && rx == nil { return true }
 if (lx == nil && rx != nil) || (lx != nil && rx == nil) { return false }
@@ -407,7 +413,9 @@ if (lx == nil && rx != nil) || (lx != nil && rx == nil) { return false }
 	funcHeaderLC := `if src == nil { return nil }
 var x *` + pname + `
 _ = x
-if p, ok := src.(**` + pname + `); ok { x = *p } else if p, ok := src.(*` + pname + `); ok { x = p } else if v, ok := src.(` + pname + `); ok { x = &v } else { return inspector.ErrUnsupportedType }`
+if p, ok := src.(**` + pname + `); ok { if p != nil { x = *p } } else if p, ok := src.(*` + pname + `); ok { x = p } else if v, ok := src.(` + pname + `); ok { x = &v } else { return inspector.ErrUnsupportedType }
+if x == nil { *result = 0
+return nil }`
 
 	// Getter methods.
 	c.wl("func (", recv, " ", inst, ") TypeName() string {")
@@ -529,10 +537,11 @@ if p, ok := src.(**` + pname + `); ok { x = *p } else if p, ok := src.(*` + pnam
 	c.wl("case *", pname, ":")
 	c.wl("origin = x.(*", pname, ")")
 	c.wl("case **", pname, ":")
-	c.wl("origin = *x.(**", pname, ")")
+	c.wl("if pp := x.(**", pname, "); pp != nil { origin = *pp }")
 	c.wl("default:")
 	c.wl("return inspector.ErrUnsupportedType")
 	c.wl("}")
+	c.wl("if origin == nil { return inspector.ErrUnsupportedType }")
 	err = c.writeNodeReset(node, "origin", 0)
 	if err != nil {
 		return err
@@ -1003,9 +1012,13 @@ func (c *Compiler) writeNodeCopy(_ *node, recv, pname string) error {
 	c.wl("case ", pname, ":")
 	c.wl("r = x.(", pname, ")")
 	c.wl("case *", pname, ":")
-	c.wl("r = *x.(*", pname, ")")
+	c.wl("p := x.(*", pname, ")")
+	c.wl("if p == nil { return nil, inspector.ErrUnsupportedType }")
+	c.wl("r = *p")
 	c.wl("case **", pname, ":")
-	c.wl("r = **x.(**", pname, ")")
+	c.wl("pp := x.(**", pname, ")")
+	c.wl("if pp == nil || *pp == nil { return nil, inspector.ErrUnsupportedType }")
+	c.wl("r = **pp")
 	c.wl("default:")
 	c.wl("return nil, inspector.ErrUnsupportedType")
 	c.wl("}")
@@ -1023,9 +1036,13 @@ func (c *Compiler) writeNodeCopyTo(_ *node, recv, pname string) error {
 	c.wl("case ", pname, ":")
 	c.wl("r = src.(", pname, ")")
 	c.wl("case *", pname, ":")
-	c.wl("r = *src.(*", pname, ")")
+	c.wl("p := src.(*", pname, ")")
+	c.wl("if p == nil { return inspector.ErrUnsupportedType }")
+	c.wl("r = *p")
 	c.wl("case **", pname, ":")
-	c.wl("r = **src.(**", pname, ")")
+	c.wl("pp := src.(**", pname, ")")
+	c.wl("if pp == nil || *pp == nil { return inspector.ErrUnsupportedType }")
+	c.wl("r = **pp")
 	c.wl("default:")
 	c.wl("return inspector.ErrUnsupportedType")
 	c.wl("}")
@@ -1037,10 +1054,11 @@ func (c *Compiler) writeNodeCopyTo(_ *node, recv, pname string) error {
 	c.wl("case *", pname, ":")
 	c.wl("l = dst.(*", pname, ")")
 	c.wl("case **", pname, ":")
-	c.wl("l = *dst.(**", pname, ")")
+	c.wl("if pp := dst.(**", pname, "); pp != nil { l = *pp }")
 	c.wl("default:")
 	c.wl("return inspector.ErrUnsupportedType")
 	c.wl("}")
+	c.wl("if l == nil { return inspector.ErrUnsupportedType }")
 
 	c.wl("bb:=buf.AcquireBytes()")
 	c.wl("var err error")
